@@ -25,7 +25,10 @@ RULE += (
     "defining class untouched). Further replacements: what new_callable produces when that is a plain "
     "function, a bound method, a callable object. A fifth convention: yield .asynq() from a task that is "
     "itself driven by asyncio. Composition 'nested_stopall': two patches of one target started with start(), "
-    "ended by ONE stopall()."
+    "ended by ONE stopall(). Replacement kind 'frozen_type' (a callable class that has a __dict__ but rejects "
+    "attribute assignment, like builtin and extension types). A sixth convention: yield async_call.asynq(f) "
+    "from a task driven by asyncio. Every second cell makes its replacements RETURN a future object "
+    "(ConstFuture / lazy Future), which every convention must pass on untouched and uncomputed."
 )
 ASSUMPTIONS = ["unittest.mock itself is trusted"]
 UNIT_TIMEOUT = {"quick": 200, "thorough": 600}
